@@ -799,6 +799,80 @@ pub fn gate_crowd_leg(acc: &mut Acc, n: usize, prop: &str) {
     acc.outcome("gate-crowd");
 }
 
+
+/// a user function that evaluates the very ruleset it is registered in (on a smaller input) before
+/// answering: evaluation is re-entrant — nothing is held across a user-function call that a nested
+/// evaluation of the same ruleset needs
+struct Reenter {
+    rs: Arc<std::sync::OnceLock<Arc<RuleSet>>>,
+    cacheable: bool,
+    name: &'static str,
+}
+#[async_trait::async_trait]
+impl UserFunction for Reenter {
+    async fn call(&self, p: Value) -> FunctionResult {
+        let n = match p {
+            Value::Int(n) => n,
+            other => return Ok(other),
+        };
+        if n <= 0 {
+            return Ok(Value::Int(0));
+        }
+        let rs = self.rs.get().ok_or_else(|| anyhow::anyhow!("ruleset not published"))?.clone();
+        let facts = Value::Map([("id".to_string(), Value::Int(n - 1))].into_iter().collect());
+        let out = rs.evaluate_value(&facts).await.map_err(|e| anyhow::anyhow!("nested evaluation failed: {e}"))?;
+        match out.first().map(|o| &o.value) {
+            Some(Ok(Value::Int(k))) => Ok(Value::Int(k + 1)),
+            other => Err(anyhow::anyhow!("nested evaluation returned {:?}", other.map(|r| r.as_ref().map_err(|e| e.to_string())))),
+        }
+    }
+    fn name(&self) -> &'static str {
+        self.name
+    }
+    fn cacheable(&self) -> bool {
+        self.cacheable
+    }
+}
+
+pub fn reentrant_leg(acc: &mut Acc) {
+    for cacheable in [false, true] {
+        // every level evaluates all rules, so a non-cacheable function makes 3^depth nested evaluations
+        for depth in if cacheable { vec![1i128, 2, 5, 40] } else { vec![1i128, 2, 5, 7] } {
+            let slot: Arc<std::sync::OnceLock<Arc<RuleSet>>> = Arc::new(std::sync::OnceLock::new());
+            let rs = ruleset()
+                .with_rule(Rule::new("count", BTreeMap::new(), Expr::func("again", Expr::reff("id"))))
+                .and_then(|b| b.with_rule(Rule::new("twice", BTreeMap::new(), Expr::Vec(vec![Expr::func("again", Expr::reff("id")), Expr::func("again", Expr::reff("id"))]))))
+                .and_then(|b| b.with_function(Reenter { rs: slot.clone(), cacheable, name: "again" }));
+            let rs = match rs {
+                Ok(b) => Arc::new(b.build()),
+                Err(e) => return acc.machinery(format!("re-entrant leg: {e}")),
+            };
+            let _ = slot.set(rs.clone());
+            let facts = Value::Map([("id".to_string(), Value::Int(depth))].into_iter().collect());
+            acc.count("executions", 1);
+            let got = catch(|| crate::engine::exec::block_on(rs.evaluate_value(&facts)));
+            let shown: Vec<String> = match &got {
+                Ok(Ok(Ok(out))) => out.iter().map(|o| format!("{:?}", o.value.as_ref().map_err(|e| e.to_string()))).collect(),
+                Ok(Ok(Err(e))) => vec![format!("evaluation failed: {e}")],
+                Ok(Err(m)) => vec![format!("did not complete: {m}")],
+                Err(p) => vec![format!("PANIC {p}")],
+            };
+            let want = vec![format!("Ok(Int({depth}))"), format!("Ok(Vec([Int({depth}), Int({depth})]))")];
+            if shown != want {
+                acc.violation(Violation {
+                    sig: format!("re-entrant/{}", if cacheable { "cacheable" } else { "plain" }),
+                    what: format!("a {} user function that evaluates its own ruleset {depth} levels deep: outcomes {shown:?}, expected {want:?}", if cacheable { "cacheable" } else { "non-cacheable" }),
+                    case: json!({"kind": "re-entrant"}),
+                    size: depth as usize,
+                });
+            }
+            // break the reference cycle ruleset -> function -> slot -> ruleset
+            drop(rs);
+        }
+    }
+    acc.outcome("re-entrant");
+}
+
 /// Rule objects travel between rulesets: a rule taken from an outcome of ruleset A (or cloned
 /// before / after A was evaluated) is registered in ruleset B, whose symbols and input differ.
 /// Every chain of up to three rulesets over three symbol tables; oracle = the same rule text
@@ -1170,6 +1244,8 @@ pub fn run(tier: Tier) -> i32 {
     }
     rep.bound("gate_crowd_sizes", format!("{gate_sizes:?} evaluations waiting inside a user function at once, 13 % abandoned, 8 fresh evaluations afterwards"));
     rule_reuse_leg(&mut acc);
+    reentrant_leg(&mut acc);
+    rep.bound("reentrant_leg", "a user function evaluating its own ruleset 1 / 2 / 5 / 40 levels deep (cacheable) and 1 / 2 / 5 / 7 levels deep (not cacheable: 3^depth nested evaluations)");
     let wait = tier.pick(6u64, 65u64);
     real_time_leg(&mut acc, wait);
     rep.bound("real_time_wait_seconds", wait);
@@ -1255,6 +1331,7 @@ pub fn replay(case: &serde_json::Value) -> i32 {
         "gate-crowd" => gate_crowd_leg(&mut acc, case.get("n").and_then(|n| n.as_u64()).unwrap_or(1100) as usize, "C12"),
         "pile-up" => pile_up_leg(&mut acc, case.get("n").and_then(|n| n.as_u64()).unwrap_or(8) as usize),
         "rule-reuse" => rule_reuse_leg(&mut acc),
+        "re-entrant" => reentrant_leg(&mut acc),
         "real-time" => real_time_leg(&mut acc, case.get("seconds").and_then(|n| n.as_u64()).unwrap_or(6)),
         "many-inputs" => many_inputs_leg(&mut acc, 300),
         "repetition" | "long-history" => {
